@@ -57,8 +57,10 @@ pub const OPERATORS: &[(&str, (OpType, &[ArgType]))] = &[
     ("BX", (OpType::Compat, &[])),
     ("EX", (OpType::Compat, &[])),
     // graphics state, Table 56, page 164
-    ("q", (OpType::GeneralGraphics, &[])),
-    ("Q", (OpType::GeneralGraphics, &[])),
+    // q, Q and cm are the *special* graphics state operators (Table 51):
+    // Figure 9 does not permit them inside a text object.
+    ("q", (OpType::SpecialGraphics, &[])),
+    ("Q", (OpType::SpecialGraphics, &[])),
     (
         "cm",
         (
